@@ -60,7 +60,13 @@ func consistent(g *Grammar) (err error) {
 			return fmt.Errorf("empty production alternative: Maybe you are missing the \"empty\" keyword in %q", prod)
 		}
 		defs[prod.Id] = true
+		if prod.Id == "INVALID" {
+			return fmt.Errorf("production name %q is reserved for the invalid token", prod.Id)
+		}
 		for _, s := range prod.Body.Symbols {
+			if str := s.SymbolString(); str == "INVALID" || str == "␚" {
+				return fmt.Errorf("symbol %q in production %q is reserved", str, prod.Id)
+			}
 			if s.String()[0] == '"' {
 				continue
 			}
